@@ -9,7 +9,7 @@ one JSON observation on stdout.
 case: {"impl": dir with robsd-exec, "probe": path of proctree, "work": scratch dir,
        "mode": "canvas" | "regress", "timeout": seconds (regress only, 0 = none),
        "tree": description, "nodes": number of nodes,
-       "hold": path of kl_hold.so (needed when the script starts with H),
+       "hold": path of kl_hold.so (always preloaded: logs kill(2); holds the child when the script starts with H),
        "script": [[op, arg], ...]}
 script ops (the same language the Coq model interprets):
   ["R", point]  continue the runner until it stops at sync point <point>
@@ -68,6 +68,22 @@ def in_wait(pid):
         return False
 
 
+def wait_arg(pid):
+    """first argument (as a signed int) of the wait4(2) the process is blocked in; None when it is not in wait4.
+    step_exec waits with waitpid(-pid, ...), the "process group failure" path of step_fork with waitpid(pid, ...)."""
+    try:
+        f = open('/proc/%d/syscall' % pid).read().split()
+    except OSError:
+        return None
+    if len(f) < 2 or f[0] != '61':
+        return None
+    try:
+        v = int(f[1], 16) & 0xffffffff
+    except ValueError:
+        return None
+    return v - (1 << 32) if v & 0x80000000 else v
+
+
 def sigpending(pid, signo):
     try:
         for line in open('/proc/%d/status' % pid):
@@ -116,6 +132,7 @@ class Sched:
         self.child = None            # pid of the held child (H)
         self.held = False
         self.released = False
+        self.saw_groupfail = False   # the runner was seen blocked in waitpid(pid > 0): the failure path of step_fork
 
     # -- set up ----------------------------------------------------------
     def start(self):
@@ -143,8 +160,11 @@ class Sched:
         points = sorted({a for op, a in c['script'] if op == 'R'})
         env['ROBSD_VERIF_SYNC'] = ','.join(points)
         env['ROBSD_VERIF_FIFO'] = self.fifo
+        # the shim is always loaded: it logs the kill(2) calls; it holds the child only when the script starts with H
+        env['LD_PRELOAD'] = c['hold']
+        self.killlog = os.path.join(self.work, 'killlog')
+        env['ROBSD_VERIF_KILLLOG'] = self.killlog
         if c['script'] and c['script'][0][0] == 'H':
-            env['LD_PRELOAD'] = c['hold']
             env['ROBSD_VERIF_HOLD'] = 'child.before_setsid'
         self.errf = open(self.stderr_path, 'wb')
         self.proc = subprocess.Popen(argv, env=env, stdin=subprocess.DEVNULL, stdout=subprocess.DEVNULL,
@@ -209,6 +229,9 @@ class Sched:
             if self.exited():
                 return 'exited'
             if in_wait(self.pid) and not any_pending(self.pid):
+                a = wait_arg(self.pid)
+                if a is not None and a > 0:
+                    self.saw_groupfail = True
                 if target == 'blocked':
                     return 'blocked'
                 if blocked_since is None:
@@ -267,7 +290,12 @@ class Sched:
         if self.at != 'running':
             return self.at
         if in_wait(self.pid):
-            return 'blocked.groupfail' if self.group_failed() else 'blocked'
+            a = wait_arg(self.pid)
+            if a is not None and a > 0:
+                self.saw_groupfail = True
+            # which waitpid it is blocked in is read from the system call's argument; the runner's own words
+            # ("process group failure") only count when /proc does not tell
+            return 'blocked.groupfail' if (a is not None and a > 0) or (a is None and self.group_failed()) else 'blocked'
         return 'running'
 
     def wait_held(self):
@@ -446,12 +474,27 @@ class Sched:
             result = ['exit', self.rc]
         self.errf.flush()
         err = open(self.stderr_path, 'rb').read().decode('latin1')
-        kills = []
+        # what the runner says it sent (free text, NOT used for the verdict) ...
+        kills_text = []
         for line in err.splitlines():
             if 'sending term signal' in line:
-                kills.append(15)
+                kills_text.append(15)
             elif 'sending kill signal' in line:
-                kills.append(9)
+                kills_text.append(9)
+        # ... and the kill(2) calls it made (tools/kl_hold.c): to the step's process group / to anything else
+        kills, kills_other = [], []
+        group = -(pgid or (self.child if never_up else 0) or 0)
+        try:
+            for line in open(self.killlog):
+                f = line.split()
+                if len(f) == 4 and int(f[0]) == self.pid:
+                    if (group and int(f[1]) == group) or (not group and int(f[1]) < -1):
+                        # (no trace of the step's main process is left - race runs: a negative target is taken as its group)
+                        kills.append(int(f[2]))
+                    else:
+                        kills_other.append([int(f[1]), int(f[2])])
+        except OSError:
+            pass
         main0 = first.get(0, 'unknown')
         return {
             'result': result,
@@ -459,10 +502,14 @@ class Sched:
             'alive': [1 if later.get(i, 'alive' if never_up else None) == 'alive' else 0 for i in range(n)],
             'alive_at_exit': [1 if first.get(i, 'alive' if never_up else None) == 'alive' else 0 for i in range(n)],
             'ready': len(members) >= n,
-            'slow': self.group_failed(),
+            'slow': self.saw_groupfail or self.group_failed(),
+            'slow_seen': self.saw_groupfail,
+            'slow_said': self.group_failed(),
             'held': self.held,
             'strangers': strangers,
             'kills': kills,
+            'kills_other': kills_other,
+            'kills_text': kills_text,
             'deliveries': self.deliveries,
             'selfexit': sorted(set(self.selfexits())),
             'reached': self.reached,
